@@ -1291,7 +1291,30 @@ func main() {
 			os.Exit(2)
 		}
 		var wrap struct {
-			Case *Case `json:"case"`
+			Case  *Case  `json:"case"`
+			RCase *RCase `json:"rcase"`
+		}
+		if err := json.Unmarshal(b, &wrap); err == nil && wrap.RCase != nil {
+			c := wrap.RCase
+			runR(c)
+			for _, p := range c.Pols {
+				fmt.Printf("policy id=%d idx=%d datacenters=%v\n%s", p.ID, p.Idx, dcNames(p.DCs), p.HCL)
+			}
+			for _, r := range c.Roles {
+				fmt.Printf("role %d policies=%v service identities=%v node identities=%v\n", r.ID, r.Pols, r.SIs, r.NIs)
+			}
+			for _, t := range c.Toks {
+				fmt.Printf("token %d policies=%v roles=%v service identities=%v node identities=%v\n", t.ID, t.Pols, t.Roles, t.SIs, t.NIs)
+			}
+			for i, st := range c.Steps {
+				fmt.Printf("step %d: resolve token %d in %s err=%v\n", i, c.Toks[st.Tok].ID, dcName(c.DC), st.Err)
+			}
+			if c.Oracle != "" {
+				fmt.Println("ORACLE FAILS:", c.Oracle)
+				os.Exit(1)
+			}
+			fmt.Println("oracle silent")
+			return
 		}
 		if err := json.Unmarshal(b, &wrap); err != nil || wrap.Case == nil {
 			fmt.Println("replay file has no \"case\"", err)
@@ -1355,6 +1378,11 @@ func main() {
 		}
 	}
 
+	var rcases []*RCase
+	for i := 0; i < 150*scale; i++ {
+		rcases = append(rcases, g.resolverCase())
+	}
+
 	f, err := os.Create(*out)
 	if err != nil {
 		panic(err)
@@ -1362,6 +1390,18 @@ func main() {
 	w := bufio.NewWriterSize(f, 1<<20)
 	enc := json.NewEncoder(w)
 	shrunk := map[string]int{}
+	for _, c := range rcases {
+		c.ID = id
+		id++
+		runR(c)
+		if c.Sig != nil && shrunk[c.Sig.Kind] < 3 {
+			shrunk[c.Sig.Kind]++
+			c.Shrunk = shrinkR(c)
+		}
+		if err := enc.Encode(c); err != nil {
+			panic(err)
+		}
+	}
 	for _, c := range cases {
 		rerender(c)
 		run(c)
